@@ -3,12 +3,12 @@ from vf.props import common as C
 
 def plan(tier):
     conds = []
-    conds += C.t_instr_conds("C17", tier)
-    conds += C.t_upd_conds("C17", tier)
+    conds += C.t_instr_conds("C05", tier)
+    conds += C.t_upd_conds("C05", tier)
     return {
         "conds": conds,
         "min_classes": 150,
-        "explanation": 'C17: I-req (a request that records a modelled dispatched vehicle => that vehicle is in DispatchTrip to it) is re-established by every instruction and every vehicle update, incl. the out-of-energy path.',
+        "explanation": 'C05: per step, energy gained by the vehicle == energy dispensed by the station it charged at, payment sent == payment received == tariff x energy, other stations untouched; fares credited == request value; instructions move no energy or money.',
         "entry_points": ['step_simulation_ops.apply_instructions', 'step_simulation_ops.step_vehicle (VehicleState.update -> default_update -> move/charge/idle/pick_up_trip/drop_off_trip)'],
         "bounds": C.ARENA_BOUNDS + C.T_BOUNDS,
         "outside": C.T_OUTSIDE,
